@@ -32,7 +32,12 @@ func (r *Response) Result() (any, error) {
 	ctx, cancel := context.WithTimeout(context.Background(), r.timeout)
 	defer func() {
 		cancel()
-		r.engine.Registry.Remove(r.pid)
+		// Give up the registration only if it is this response's. The registry
+		// refuses a response whose ID is taken (an actor of kind "response" can
+		// own it); removing by ID would then unregister that actor.
+		if r.engine.Registry.get(r.pid) == Processer(r) {
+			r.engine.Registry.Remove(r.pid)
+		}
 	}()
 
 	select {
